@@ -144,7 +144,7 @@ def body(ctx):
         spec = dict(seed=ctx.seed * 13 + j, maxdata=rng.choice([4096, 65536, 1024 * 1024]), rid='random', frag=rng.choice(['whole', 'random', 'empty'] if size < 50000 else ['whole']),
                     ops=[dict(api='pull', path=rng.choice(['/p', '/sdcard/éa', '/фото.jpg', '/€']), path_bytes=rng.random() < 0.3, size=size, data_sizes=rng.choice([None, 'random']), cuts=rng.choice(['whole', 'random', 'small'] if size < 20000 else ['whole', 'random']),
                               dest=rng.choice(['bytesio', 'path']), cb=rng.choice([None, 'ok', 'raise', 'raise_base', 'reenter']),      # reenter: the callback runs a shell command on the same device
-                              local_as=rng.choice(['str', 'pathlib', 'bytes', 'fd']),                   # what open() accepts as a destination
+                              local_as=rng.choice(['str', 'pathlib', 'bytes', 'fd', 'dollar', 'tilde']),                   # what open() accepts as a destination
                               stat_size=rng.choice([None, None, 0, 1, size + 1, 0xFFFFFFFF]))])          # what STAT says need not be what RECV delivers (procfs; a growing file)
         mode = ('sync', 'async')[j % 2]
         runs.append((mode, spec) + run_with_inert(spec, mode))
@@ -171,6 +171,14 @@ def body(ctx):
             if (want_ is not None and any(bytes(x) != want_ for x in got_)) or (size and not got_) or len(env_.LOCK_LEAKS) > leaks0:
                 ctx.violation('C08.CallbackInert', dict(kind='a callback that runs another operation on the same device', callback=cbk, mode=mode, size=size, results=[repr(x)[:40] for x in got_][:5],
                                                         lock_requested_while_held=len(env_.LOCK_LEAKS) > leaks0))
+    # destination names that merely look like shell syntax; raising callbacks in a process that turns warnings into errors; DATA records of
+    # 64 KiB in one WRITE over a transport that keeps transfer boundaries
+    for k5, (la, cbk, we, bd) in enumerate([('dollar', None, False, None), ('tilde', 'ok', False, None), ('str', 'raise', True, None), ('str', 'raise_base', True, None),
+                                             ('str', None, False, 'usb'), ('pathlib', 'ok', False, 'usb')]):
+        spec = dict(seed=ctx.seed + 800 + k5, maxdata=4096, rid='plus', frag='whole', warn_error=we, boundary=bd,
+                    ops=[dict(api='pull', path='/x%d' % k5, size=140000, data_sizes=[65536, 65536, 8928], cuts='whole', dest='path', local_as=la, cb=cbk)])
+        for mode in ('sync', 'async'):
+            runs.append((mode, spec) + run_with_inert(spec, mode))
     # a file that arrives in more than a thousand records
     spec = dict(seed=ctx.seed + 790, maxdata=65536, rid='plus', frag='whole', ops=[dict(api='pull', path='/many', size=1500, data_sizes=[1] * 1500, cuts='whole', dest='bytesio', cb=None)])
     for mode in ('sync', 'async'):
